@@ -18,7 +18,7 @@ package autodiff
 
 /* -------------------------------------------------------------------------- */
 
-//import "fmt"
+import "fmt"
 
 /* -------------------------------------------------------------------------- */
 
@@ -68,4 +68,25 @@ func (obj *vectorSparseIndexIterator) Get() int {
 
 func (obj *vectorSparseIndexIterator) Clone() *vectorSparseIndexIterator {
   return &vectorSparseIndexIterator{obj.AvlIterator.Clone()}
+}
+
+/* -------------------------------------------------------------------------- */
+
+// Check that a list of indices describes the entries of a sparse vector of
+// length n, i.e. every index lies in [0,n) and appears at most once.
+func checkSparseIndices(indices []int, n int) error {
+  if n < 0 {
+    return fmt.Errorf("invalid sparse vector: negative length `%d'", n)
+  }
+  seen := make(map[int]struct{}, len(indices))
+  for _, k := range indices {
+    if k < 0 || k >= n {
+      return fmt.Errorf("invalid sparse vector: index `%d' out of range", k)
+    }
+    if _, ok := seen[k]; ok {
+      return fmt.Errorf("invalid sparse vector: index `%d' appeared multiple times", k)
+    }
+    seen[k] = struct{}{}
+  }
+  return nil
 }
